@@ -19,7 +19,7 @@ Proof. exact solve_on_spec. Qed.
 Print Assumptions C12_solve_on_exact.
 
 Theorem C12_solve_sound : forall a hb c t,
-  (min_a_R <= Rabs a \/ (a = 0 /\ c <> 0)) ->
+  (min_a_R <= Rabs a \/ a = 0) ->
   In (Some t) (isect2_list (solve_general (T:=R) a hb c false)) -> 0 < t /\ qpoly a hb c t = 0.
 Proof. exact solve_sound. Qed.
 Print Assumptions C12_solve_sound.
@@ -58,26 +58,27 @@ Theorem C12_solve_window_partial : forall strict a hb c,
 Proof. exact solve_window_partial. Qed.
 Print Assumptions C12_solve_window_partial.
 
-(** solve_along_surface as coded (`result[0] < 0`) keeps t = 0 (start point
-    exactly on the surface with state "off"), unlike every other branch:
-    positivity is refuted there (finding) ... *)
+(** solve_along_surface before the repair 8462ce5 (`result[0] < 0`) kept t = 0
+    (start point exactly on the surface with state "off"), unlike every other
+    branch: positivity was refuted there (finding, fixed) ... *)
 Theorem C12_solve_along_zero_refuted :
   exists hb c, In (Some 0) (isect2_list (solve_along_gen (T:=R) false hb c)).
 Proof. exact solve_along_zero_refuted. Qed.
 Print Assumptions C12_solve_along_zero_refuted.
 
-(** ... and with the repaired comparison (`<= 0`) every returned distance is
-    strictly positive, with no side condition on c *)
-Theorem C12_solve_along_positive_repaired : forall hb c t,
-  In (Some t) (isect2_list (solve_along_gen (T:=R) true hb c)) -> 0 < t /\ 2 * hb * t + c = 0.
+(** ... and the code as it stands (`<= 0`, [solve_along = solve_along_gen true])
+    returns only strictly positive distances *)
+Theorem C12_solve_along_positive : forall hb c t,
+  In (Some t) (isect2_list (solve_along (T:=R) hb c)) -> 0 < t /\ 2 * hb * t + c = 0.
 Proof. exact solve_along_positive_repaired. Qed.
-Print Assumptions C12_solve_along_positive_repaired.
+Print Assumptions C12_solve_along_positive.
 
-Theorem C12_solve_sound_repaired : forall a hb c t,
-  (min_a_R <= Rabs a \/ a = 0) ->
-  In (Some t) (isect2_list (solve_general_gen (T:=R) true a hb c false)) -> 0 < t /\ qpoly a hb c t = 0.
-Proof. exact solve_sound_repaired. Qed.
-Print Assumptions C12_solve_sound_repaired.
+(** what held before the repair: positivity only for a start point off the surface *)
+Theorem C12_solve_sound_before_repair_partial : forall a hb c t,
+  (min_a_R <= Rabs a \/ (a = 0 /\ c <> 0)) ->
+  In (Some t) (isect2_list (solve_general_gen (T:=R) false a hb c false)) -> 0 < t /\ qpoly a hb c t = 0.
+Proof. exact solve_sound_before_repair. Qed.
+Print Assumptions C12_solve_sound_before_repair_partial.
 
 (** ** Every surface type (PlaneAligned, Plane, SphereCentered, Sphere, CylCentered,
     CylAligned, ConeAligned, SimpleQuadric, GeneralQuadric) *)
@@ -87,7 +88,7 @@ Print Assumptions C12_surf_sense_is_sign.
 
 Theorem C12_surf_intersections_on_surface : forall s p d on t,
   vdot d d = 1 ->
-  (on = true -> surf_f s p = 0) -> (on = false -> surf_f s p <> 0) ->
+  (on = true -> surf_f s p = 0) ->
   sound_regime s p d ->
   In (Some t) (surf_intersect s p d on) -> 0 < t /\ surf_f s (ray p d t) = 0.
 Proof. exact surf_intersections_on_surface. Qed.
@@ -125,22 +126,23 @@ Proof. exact surf_normal_is_unit_gradient. Qed.
 Print Assumptions C12_surf_normal_is_unit_gradient.
 
 (** ** Transforms *)
-(** SurfaceTranslator with the SimpleQuadric constant term repaired ([translate_surface_gen true]) *)
+(** SurfaceTranslator as coded (since the repair 9730bb5), every surface type *)
 Theorem C12_translate_sense : forall tra s p,
-  surf_sense (translate_surface_gen true tra s) (tr_up tra p) = surf_sense s p.
+  surf_sense (translate_surface tra s) (tr_up tra p) = surf_sense s p.
 Proof. exact translate_sense. Qed.
 Print Assumptions C12_translate_sense.
 
-(** SurfaceTranslator as coded: every type but SimpleQuadric; SimpleQuadric iff first . t = 0 *)
-Theorem C12_translate_sense_as_coded_partial : forall tra s p,
+(** before the repair: every type but SimpleQuadric; SimpleQuadric iff first . t = 0 ... *)
+Theorem C12_translate_sense_before_repair_partial : forall tra s p,
   (match s with SSimpleQuadric _ def _ => vdot def tra = 0 | _ => True end) ->
-  surf_sense (translate_surface tra s) (tr_up tra p) = surf_sense s p.
-Proof. exact translate_sense_as_coded. Qed.
-Print Assumptions C12_translate_sense_as_coded_partial.
+  surf_sense (translate_surface_gen false tra s) (tr_up tra p) = surf_sense s p.
+Proof. exact translate_sense_before_repair. Qed.
+Print Assumptions C12_translate_sense_before_repair_partial.
 
-(** ... and the code's SimpleQuadric translation does NOT preserve the point set (finding) *)
+(** ... and its SimpleQuadric translation did NOT preserve the point set (finding, fixed) *)
 Theorem C12_translate_sq_refuted :
-  exists tra s p, surf_sense s p = Inside /\ surf_sense (translate_surface tra s) (tr_up tra p) = Outside.
+  exists tra s p, surf_sense s p = Inside /\
+                  surf_sense (translate_surface_gen false tra s) (tr_up tra p) = Outside.
 Proof. exact translate_sq_refuted. Qed.
 Print Assumptions C12_translate_sq_refuted.
 
